@@ -591,6 +591,13 @@ where
                     _ => "unsupported".into(),
                 }
             }
+            ["jitnew"] => {
+                // the std constructor on the real clock: test_timer (or the cached rounds), set_rounds, one collection
+                match JitterRng::new() {
+                    Ok(mut j) => { let _ = j.next_u64(); let _ = j.next_u32(); "ok".into() }
+                    Err(e) => format!("err {}", timer_err_name(&e)),
+                }
+            }
             ["reset"] => { self.slots.clear(); "ok".into() }
             [] => String::new(),
             _ => "bad-op".into(),
